@@ -38,6 +38,7 @@ func (c07) Cases(tier string, seed int64, kf *KnownFindings) []Case {
 	add(Case{Kind: "bulk", Seed: Mix(seed, 4242)})
 	add(Case{Kind: "samename", Seed: Mix(seed, 4343), Count: 60})
 	add(Case{Kind: "widths", Seed: Mix(seed, 4344), Count: 120})
+	add(Case{Kind: "afterrefusal"})
 	if tier == "quick" {
 		// 64 windows of 2^12 around spread points + random samples
 		r := rand.New(rand.NewSource(seed))
@@ -467,6 +468,67 @@ func (c07) Run(c Case, env *Env) Result {
 			}
 		}
 		res.Sample(map[string]interface{}{"kind": "literal out-of-range integers"})
+	case "afterrefusal":
+		// integers sent with an Encoder / Serializer whose PREVIOUS call refused a value part-way (an integer
+		// beyond the wire type behind other data): the refusal must leave nothing behind - the next integers
+		// come out in exactly the octets of a fresh instance, and decode to themselves
+		type c07Rec struct {
+			A int32
+			B int
+		}
+		refused := []interface{}{[]int{1, 2, 1 << 40}, &c07Rec{A: 7, B: -(1 << 40)}, map[string]uint64{"k": 1 << 63},
+			[]interface{}{int32(1), "s", uint(1<<64 - 1)}, []uint64{3, 1 << 63}}
+		after := []interface{}{int32(5), int64(123456789012), int(-1), uint16(65535), int64(-2049), []int32{1, 70000}}
+		for ri, bad := range refused {
+			for _, entry := range []string{"Encoder.Encode", "Serializer.ToBytes", "Encoder.WriteTo"} {
+				res.Evals++
+				res.NTCount++
+				feats := []string{"after-refusal", "entry=" + entry}
+				var encode func(v interface{}) ([]byte, error)
+				mk := func() func(v interface{}) ([]byte, error) {
+					switch entry {
+					case "Encoder.Encode":
+						e := hessian.NewEncoder(&bytes.Buffer{}, map[string]string{"c07Rec": "c07Rec"})
+						return e.Encode
+					case "Serializer.ToBytes":
+						z := hessian.NewSerializer(nil, map[string]string{"c07Rec": "c07Rec"})
+						return z.ToBytes
+					}
+					e := hessian.NewEncoder(&bytes.Buffer{}, map[string]string{"c07Rec": "c07Rec"})
+					return func(v interface{}) ([]byte, error) {
+						var b bytes.Buffer
+						err := e.WriteTo(&b, v)
+						return b.Bytes(), err
+					}
+				}
+				encode = mk()
+				var err0 error
+				pi, _ := Guard(func() { _, err0 = encode(bad) })
+				if pi != nil {
+					viol(pi.Class, feats, 0, fmt.Sprintf("refused value #%d %T: panic %s", ri, bad, pi.Msg))
+					continue
+				}
+				if err0 == nil {
+					continue // carried (exactly or not is judged above and in 'kinds'); nothing was refused
+				}
+				res.Count("refusals_followed_by_integers", 1)
+				for _, v := range after {
+					var got, want []byte
+					var e1, e2 error
+					pi, _ := Guard(func() { got, e1 = encode(v); want, e2 = mk()(v) })
+					switch {
+					case pi != nil:
+						viol(pi.Class, feats, 0, fmt.Sprintf("%T %v after a refused %T: panic %s", v, v, bad, pi.Msg))
+					case e2 != nil:
+						// the fresh instance refuses it too: nothing to compare
+					case e1 != nil:
+						viol("enc-error", feats, 0, fmt.Sprintf("%T %v after a refused %T through %s: %v (a fresh instance encodes it)", v, v, bad, entry, e1))
+					case !bytes.Equal(got, want):
+						viol("wire:after-refusal", feats, 0, fmt.Sprintf("%T %v after a refused %T through %s: bytes %x, a fresh instance writes %x", v, v, bad, entry, got, want))
+					}
+				}
+			}
+		}
 	}
 	return res
 }
